@@ -212,6 +212,7 @@ class Run:
                 'samples': samples[:40],
                 'units': units,
                 'functions_analysed': len(self.functions_analysed),
+                'functions_list': sorted(':'.join(map(str, t)) if isinstance(t, tuple) else str(t) for t in self.functions_analysed),
                 'rule_instances': {r: v['instances'] for r, v in sorted(self.rules.items())},
                 'controls_fired': self.controls,
                 'known_findings_matched': [{'rule': fd.rule, 'site': '%s:%s' % (fd.file, fd.func), 'construct': fd.construct}
